@@ -113,7 +113,7 @@ def _wrap(a):
     return L.If(a > PI, a - 2 * PI, L.If(a <= -PI, a + 2 * PI, a))
 
 
-def interp_exact(pattern, mode):
+def interp_exact(pattern, mode, obj_frame="map"):
     """Real interpolation between two frames 100 ms apart (+ an optional later frame).
     mode 'sym_time': query time symbolic, poses concrete; 'sym_pose': poses symbolic, query on a grid;
     'both': everything symbolic (non-linear)."""
@@ -136,14 +136,21 @@ def interp_exact(pattern, mode):
     pose2 = {u: (P(f"{u}2", (4.5 + k, 1.0)), Y(f"{u}2", -2.75 + k)) for k, u in enumerate(ids2)}
     if sym_pose:
         for u in set(ids1) & set(ids2):  # exactly opposite headings have no unique shortest arc
-            dd = abs(pose2[u][1] - pose1[u][1])
+            dd = abs(pose2[u][1] + (PI / 2 if obj_frame != "map" else 0) - pose1[u][1])
+            dd = L.If(dd > 2 * PI, dd - 2 * PI, dd)
             assume(L.Or(dd < PI - Fraction(1, 1000), L.And(dd > PI + Fraction(1, 1000), dd < 2 * PI - Fraction(1, 1000))))
     e1 = [real("ego1_x", -100, 100) if sym_pose else 10.0, 20.0, 0.0]
     e2 = [real("ego2_x", -100, 100) if sym_pose else 12.0, 21.0, 0.0]
-    f1 = FrameGroundTruth(T1, "0", [_obj(u, FrameID.MAP, p, build.mkrot_theta(y), T1) for u, (p, y) in pose1.items()],
+    ofr = FrameID.MAP if obj_frame == "map" else FrameID.BASE_LINK
+    f1 = FrameGroundTruth(T1, "0", [_obj(u, ofr, p, build.mkrot_theta(y), T1) for u, (p, y) in pose1.items()],
                           transforms=[_ego(e1, (1, 0, 0, 0))])
-    f2 = FrameGroundTruth(T2, "1", [_obj(u, FrameID.MAP, p, build.mkrot_theta(y), T2) for u, (p, y) in pose2.items()],
+    f2 = FrameGroundTruth(T2, "1", [_obj(u, ofr, p, build.mkrot_theta(y), T2) for u, (p, y) in pose2.items()],
                           transforms=[_ego(e2, (1, 0, 0, 1))])
+    if obj_frame != "map":
+        # ego-frame objects are interpolated in global coordinates: the oracle works on their global poses
+        # (frame 1: ego yaw 0 at e1; frame 2: ego yaw +90 deg at e2)
+        pose1 = {u: ([p[0] + e1[0], p[1] + e1[1], p[2]], y) for u, (p, y) in pose1.items()}
+        pose2 = {u: ([-p[1] + e2[0], p[0] + e2[1], p[2]], _wrap(y + PI / 2)) for u, (p, y) in pose2.items()}
     f3 = FrameGroundTruth(T3, "2", [], transforms=[_ego(e2, (1, 0, 0, 1))])
     frames = [f1, f2, f3]
     snapshot = [(id(f), [id(o) for o in f.objects], f.unix_time) for f in frames]
@@ -173,6 +180,7 @@ def interp_exact(pattern, mode):
                     conds.append(False)
                     continue
                 o = got[u]
+                conds.append(o.frame_id == "map" or u not in (set(ids1) & set(ids2)) and o.frame_id == ofr)
                 yaw = o.state.orientation.yaw_pitch_roll[0]
                 if u in ids1 and u in ids2:
                     (p1, y1), (p2, y2) = pose1[u], pose2[u]
@@ -229,7 +237,8 @@ def obligations(pid, tier):
         Obligation("interp_gating", interp_gating, cases=[dict(n=n, via_manager=m) for n in ns for m in (False, True)],
                    desc="get_interpolated_now_frame: neighbour search and tolerance gating (interpolation stubbed)"),
         Obligation("interp_exact", interp_exact, extras=_extras,
-                   cases=[dict(pattern=p, mode=m) for p in patterns for m in modes],
+                   cases=[dict(pattern=p, mode=m, obj_frame=fr) for p in patterns for m in modes
+                          for fr in (("map", "base_link") if (not quick or p == patterns[1]) else ("map",))],
                    desc="interpolated frame: query stamp, straight segment / shortest arc, appear/disappear, neighbours kept"),
     ]
 
